@@ -1,3 +1,264 @@
--- placeholder: native driver of property C05 (see checks/README.md)
-def main (_ : List String) : IO UInt32 := do
-  IO.eprintln "drv_c05: not built yet"; return 2
+/-
+  drv_c05 — native driver of property C05 (protocol: diff/C05.cpp, orchestration: checks/c05.py).
+    drv_c05 lines <file>                 for every harness line evaluate the Lean model (Hand/C05.lean) and the executable
+                                         specification (Spec.*); print `DIFF …` for each line where glm ≠ model or glm ≠ spec,
+                                         `GROUP …` per (fn, ty) and a `SUMMARY …` line
+    drv_c05 sweep ext16|ins8 <u|i>       the same enumeration as the harness sweep, `BLOCK <idx> <hash>` of the MODEL results,
+                                         plus the number of points where model ≠ spec (`SWEEP …`)
+    drv_c05 sweep un32 <fn> <u|i> [lo hi [spec]] all 2^32 values (blocks lo..hi-1 of 2^20), model hashes only
+-/
+import Std.Data.HashSet
+import GlmVerif.Hand.C05
+open GlmVerif.C05
+
+@[inline] def i32 (x : Int32) : UInt64 := x.toUInt32.toUInt64
+@[inline] def asI32 (a : UInt64) : Int32 := a.toUInt32.toInt32
+
+def width (ty : String) : Nat :=
+  match ty with
+  | "u8" | "i8" => 8 | "u16" | "i16" => 16 | "u32" | "i32" => 32 | _ => 64
+def isSigned (ty : String) : Bool := ty.startsWith "i"
+
+/-- the model: (r0, r1) as raw bits, exactly as the harness prints the glm results -/
+def model (fn form ty : String) (a0 a1 a2 a3 : UInt64) : Option (UInt64 × UInt64) :=
+  let vec := form != "s"
+  match fn, ty with
+  | "bitCount", "u8" => some (i32 (bitCount_U8 a0.toUInt8), 0)
+  | "bitCount", "i8" => some (i32 (bitCount_I8 a0.toUInt8.toInt8), 0)
+  | "bitCount", "u16" => some (i32 (bitCount_U16 a0.toUInt16), 0)
+  | "bitCount", "i16" => some (i32 (bitCount_I16 a0.toUInt16.toInt16), 0)
+  | "bitCount", "u32" => some (i32 (bitCount_U32 a0.toUInt32), 0)
+  | "bitCount", "i32" => some (i32 (bitCount_I32 a0.toUInt32.toInt32), 0)
+  | "bitCount", "u64" => some (i32 (bitCount_U64 a0), 0)
+  | "bitCount", "i64" => some (i32 (bitCount_I64 a0.toInt64), 0)
+  | "findLSB", "u8" => some (i32 (findLSB_U8 a0.toUInt8), 0)
+  | "findLSB", "i8" => some (i32 (findLSB_I8 a0.toUInt8.toInt8), 0)
+  | "findLSB", "u16" => some (i32 (findLSB_U16 a0.toUInt16), 0)
+  | "findLSB", "i16" => some (i32 (findLSB_I16 a0.toUInt16.toInt16), 0)
+  | "findLSB", "u32" => some (i32 (findLSB_U32 a0.toUInt32), 0)
+  | "findLSB", "i32" => some (i32 (findLSB_I32 a0.toUInt32.toInt32), 0)
+  | "findLSB", "u64" => some (i32 (findLSB_U64 a0), 0)
+  | "findLSB", "i64" => some (i32 (findLSB_I64 a0.toInt64), 0)
+  | "findMSB", "u8" => some (i32 (findMSB_U8 a0.toUInt8), 0)
+  | "findMSB", "i8" => some (i32 (findMSB_I8 a0.toUInt8.toInt8), 0)
+  | "findMSB", "u16" => some (i32 (findMSB_U16 a0.toUInt16), 0)
+  | "findMSB", "i16" => some (i32 (findMSB_I16 a0.toUInt16.toInt16), 0)
+  | "findMSB", "u32" => some (i32 (findMSB_U32 a0.toUInt32), 0)
+  | "findMSB", "i32" => some (i32 (findMSB_I32 a0.toUInt32.toInt32), 0)
+  | "findMSB", "u64" => some (i32 (findMSB_U64 a0), 0)
+  | "findMSB", "i64" => some (i32 (findMSB_I64 a0.toInt64), 0)
+  | "bitfieldReverse", "u8" => some ((bitfieldReverse_U8 a0.toUInt8).toUInt64, 0)
+  | "bitfieldReverse", "i8" => some ((bitfieldReverse_I8 a0.toUInt8.toInt8).toUInt8.toUInt64, 0)
+  | "bitfieldReverse", "u16" => some ((bitfieldReverse_U16 a0.toUInt16).toUInt64, 0)
+  | "bitfieldReverse", "i16" => some ((bitfieldReverse_I16 a0.toUInt16.toInt16).toUInt16.toUInt64, 0)
+  | "bitfieldReverse", "u32" => some ((bitfieldReverse_U32 a0.toUInt32).toUInt64, 0)
+  | "bitfieldReverse", "i32" => some ((bitfieldReverse_I32 a0.toUInt32.toInt32).toUInt32.toUInt64, 0)
+  | "bitfieldReverse", "u64" => some (bitfieldReverse_U64 a0, 0)
+  | "bitfieldReverse", "i64" => some ((bitfieldReverse_I64 a0.toInt64).toUInt64, 0)
+  | "bitfieldExtract", "u8" => some ((bitfieldExtract_U8 a0.toUInt8 (asI32 a1) (asI32 a2)).toUInt64, 0)
+  | "bitfieldExtract", "i8" => some ((bitfieldExtract_I8 a0.toUInt8.toInt8 (asI32 a1) (asI32 a2)).toUInt8.toUInt64, 0)
+  | "bitfieldExtract", "u16" => some ((bitfieldExtract_U16 a0.toUInt16 (asI32 a1) (asI32 a2)).toUInt64, 0)
+  | "bitfieldExtract", "i16" => some ((bitfieldExtract_I16 a0.toUInt16.toInt16 (asI32 a1) (asI32 a2)).toUInt16.toUInt64, 0)
+  | "bitfieldExtract", "u32" => some ((bitfieldExtract_U32 a0.toUInt32 (asI32 a1) (asI32 a2)).toUInt64, 0)
+  | "bitfieldExtract", "i32" => some ((bitfieldExtract_I32 a0.toUInt32.toInt32 (asI32 a1) (asI32 a2)).toUInt32.toUInt64, 0)
+  | "bitfieldExtract", "u64" => some (bitfieldExtract_U64 a0 (asI32 a1) (asI32 a2), 0)
+  | "bitfieldExtract", "i64" => some ((bitfieldExtract_I64 a0.toInt64 (asI32 a1) (asI32 a2)).toUInt64, 0)
+  | "bitfieldInsert", "u8" => some ((bitfieldInsert_U8 a0.toUInt8 a1.toUInt8 (asI32 a2) (asI32 a3)).toUInt64, 0)
+  | "bitfieldInsert", "i8" => some ((bitfieldInsert_I8 a0.toUInt8.toInt8 a1.toUInt8.toInt8 (asI32 a2) (asI32 a3)).toUInt8.toUInt64, 0)
+  | "bitfieldInsert", "u16" => some ((bitfieldInsert_U16 a0.toUInt16 a1.toUInt16 (asI32 a2) (asI32 a3)).toUInt64, 0)
+  | "bitfieldInsert", "i16" => some ((bitfieldInsert_I16 a0.toUInt16.toInt16 a1.toUInt16.toInt16 (asI32 a2) (asI32 a3)).toUInt16.toUInt64, 0)
+  | "bitfieldInsert", "u32" => some ((bitfieldInsert_U32 a0.toUInt32 a1.toUInt32 (asI32 a2) (asI32 a3)).toUInt64, 0)
+  | "bitfieldInsert", "i32" => some ((bitfieldInsert_I32 a0.toUInt32.toInt32 a1.toUInt32.toInt32 (asI32 a2) (asI32 a3)).toUInt32.toUInt64, 0)
+  | "bitfieldInsert", "u64" => some (bitfieldInsert_U64 a0 a1 (asI32 a2) (asI32 a3), 0)
+  | "bitfieldInsert", "i64" => some ((bitfieldInsert_I64 a0.toInt64 a1.toInt64 (asI32 a2) (asI32 a3)).toUInt64, 0)
+  | "uaddCarry", "u32" =>
+    let x := a0.toUInt32; let y := a1.toUInt32
+    if vec then some ((uaddCarryV_res x y).toUInt64, (uaddCarryV_carry x y).toUInt64)
+    else some ((uaddCarry_res x y).toUInt64, (uaddCarry_carry x y).toUInt64)
+  | "usubBorrow", "u32" =>
+    let x := a0.toUInt32; let y := a1.toUInt32
+    if vec then some ((usubBorrowV_res x y).toUInt64, (usubBorrowV_borrow x y).toUInt64)
+    else some ((usubBorrow_res x y).toUInt64, (usubBorrow_borrow x y).toUInt64)
+  | "umulExtended", "u32" =>
+    let x := a0.toUInt32; let y := a1.toUInt32
+    if vec then some ((umulExtendedV_msb x y).toUInt64, (umulExtendedV_lsb x y).toUInt64)
+    else some ((umulExtended_msb x y).toUInt64, (umulExtended_lsb x y).toUInt64)
+  | "imulExtended", "i32" =>
+    let x := asI32 a0; let y := asI32 a1
+    if vec then some (i32 (imulExtendedV_msb x y), i32 (imulExtendedV_lsb x y))
+    else some (i32 (imulExtended_msb x y), i32 (imulExtended_lsb x y))
+  | _, _ => none
+
+/-- the executable specification on the same raw-bit interface -/
+def spec (fn ty : String) (a0 a1 a2 a3 : UInt64) : Option (UInt64 × UInt64) :=
+  let w := width ty
+  match fn with
+  | "bitCount" => some (i32 (Spec.bitCount w a0), 0)
+  | "findLSB" => some (i32 (Spec.findLSB w a0), 0)
+  | "findMSB" => some (i32 (Spec.findMSB (isSigned ty) w a0), 0)
+  | "bitfieldReverse" => some (Spec.reverse w a0, 0)
+  | "bitfieldExtract" => some (Spec.extract (isSigned ty) w a0 a1 a2, 0)
+  | "bitfieldInsert" => some (Spec.insert w a0 a1 a2 a3, 0)
+  | "uaddCarry" => some (UInt64.ofNat (Spec.uaddSum a0.toNat a1.toNat), UInt64.ofNat (Spec.uaddCarry a0.toNat a1.toNat))
+  | "usubBorrow" => some (UInt64.ofNat (Spec.usubDiff a0.toNat a1.toNat), UInt64.ofNat (Spec.usubBorrow a0.toNat a1.toNat))
+  | "umulExtended" => some (UInt64.ofNat (Spec.umulMsb a0.toNat a1.toNat), UInt64.ofNat (Spec.umulLsb a0.toNat a1.toNat))
+  | "imulExtended" =>
+    let x := (asI32 a0).toInt; let y := (asI32 a1).toInt
+    some (UInt64.ofNat ((Spec.imulMsb x y) % (2^32 : Int)).toNat, UInt64.ofNat (Spec.imulLsb x y).toNat)
+  | _ => none
+
+@[inline] def fold (h r : UInt64) : UInt64 := (h ^^^ r) * 0x100000001B3 + 0x9E3779B97F4A7C15
+
+structure Grp where
+  n : Nat := 0
+  md : Nat := 0
+  sd : Nat := 0
+
+def runLines (path : String) : IO UInt32 := do
+  let h ← IO.FS.Handle.mk path IO.FS.Mode.read
+  let mut lines := 0
+  let mut bad := 0
+  let mut md := 0
+  let mut sd := 0
+  let mut nontriv := 0
+  let mut printed := 0
+  let mut seen : Std.HashSet UInt64 := {}
+  let mut groups : Std.HashMap String Grp := {}
+  repeat
+    let ln ← h.getLine
+    if ln.isEmpty then break
+    let ln := ln.trimAsciiEnd.toString
+    if ln.isEmpty then continue
+    lines := lines + 1
+    match ln.splitOn " " with
+    | [fn, form, ty, s0, s1, s2, s3, t0, t1] =>
+      match s0.toNat?, s1.toNat?, s2.toNat?, s3.toNat?, t0.toNat?, t1.toNat? with
+      | some n0, some n1, some n2, some n3, some q0, some q1 =>
+        let a0 := UInt64.ofNat n0; let a1 := UInt64.ofNat n1; let a2 := UInt64.ofNat n2; let a3 := UInt64.ofNat n3
+        let g0 := UInt64.ofNat q0; let g1 := UInt64.ofNat q1
+        match model fn form ty a0 a1 a2 a3, spec fn ty a0 a1 a2 a3 with
+        | some (m0, m1), some (p0, p1) =>
+          let dm := !(m0 == g0 && m1 == g1)
+          let ds := !(p0 == g0 && p1 == g1)
+          let key := fn ++ " " ++ ty
+          let g := groups.getD key {}
+          groups := groups.insert key { n := g.n + 1, md := g.md + (if dm then 1 else 0), sd := g.sd + (if ds then 1 else 0) }
+          if dm then md := md + 1
+          if ds then sd := sd + 1
+          -- distinct non-trivial inputs: the result is neither the (first) input unchanged nor zero
+          let hk := mixHash (hash key) (mixHash (mixHash (hash a0) (hash a1)) (mixHash (hash a2) (hash a3)))
+          if !seen.contains hk then
+            seen := seen.insert hk
+            if !(g0 == a0) && !(g0 == 0) then nontriv := nontriv + 1
+          if dm || ds then
+            if printed < 400000 then
+              printed := printed + 1
+              IO.println s!"DIFF {if dm then "m" else ""}{if ds then "s" else ""} {ln} model={m0},{m1} spec={p0},{p1}"
+        | _, _ => bad := bad + 1; IO.println s!"BAD unknown-op {ln}"
+      | _, _, _, _, _, _ => bad := bad + 1; IO.println s!"BAD number {ln}"
+    | _ => bad := bad + 1; IO.println s!"BAD shape {ln}"
+  for (k, g) in groups.toList do
+    IO.println s!"GROUP {k} n={g.n} modeldiff={g.md} specdiff={g.sd}"
+  IO.println s!"SUMMARY lines={lines} bad={bad} modeldiff={md} specdiff={sd} nontrivial={nontriv} distinct={seen.size}"
+  return 0
+
+/-- ext16: block = one (offset, bits) pair of the 16-bit domain, all 65536 values -/
+def sweepExt16 (sgn : Bool) : IO Unit := do
+  let mut idx := 0
+  let mut evals := 0
+  let mut msd := 0
+  let mut nontriv := 0
+  for off in [0:17] do
+    for bits in [0:17 - off] do
+      let o := UInt64.ofNat off; let b := UInt64.ofNat bits
+      let mut h : UInt64 := 0
+      for v in [0:65536] do
+        let a := UInt64.ofNat v
+        let r := if sgn then (bitfieldExtract_I16 a.toUInt16.toInt16 (asI32 o) (asI32 b)).toUInt16.toUInt64
+                 else (bitfieldExtract_U16 a.toUInt16 (asI32 o) (asI32 b)).toUInt64
+        h := fold (fold h r) 0
+        if !(r == Spec.extract sgn 16 a o b) then msd := msd + 1
+        if !(r == a) && !(r == 0) then nontriv := nontriv + 1
+        evals := evals + 1
+      IO.println s!"BLOCK {idx} {h}"
+      idx := idx + 1
+  IO.println s!"SWEEP ext16 evals={evals} modelspecdiff={msd} nontrivial={nontriv}"
+
+/-- ins8: block = one (offset, bits) pair of the 8-bit domain, all 256 × 256 (base, insert) -/
+def sweepIns8 (sgn : Bool) : IO Unit := do
+  let mut idx := 0
+  let mut evals := 0
+  let mut msd := 0
+  let mut nontriv := 0
+  for off in [0:9] do
+    for bits in [0:9 - off] do
+      let o := UInt64.ofNat off; let b := UInt64.ofNat bits
+      let mut h : UInt64 := 0
+      for x in [0:256] do
+        for y in [0:256] do
+          let bx := UInt64.ofNat x; let iy := UInt64.ofNat y
+          let r := if sgn then (bitfieldInsert_I8 bx.toUInt8.toInt8 iy.toUInt8.toInt8 (asI32 o) (asI32 b)).toUInt8.toUInt64
+                   else (bitfieldInsert_U8 bx.toUInt8 iy.toUInt8 (asI32 o) (asI32 b)).toUInt64
+          h := fold (fold h r) 0
+          if !(r == Spec.insert 8 bx iy o b) then msd := msd + 1
+          if !(r == bx) && !(r == 0) then nontriv := nontriv + 1
+          evals := evals + 1
+      IO.println s!"BLOCK {idx} {h}"
+      idx := idx + 1
+  IO.println s!"SWEEP ins8 evals={evals} modelspecdiff={msd} nontrivial={nontriv}"
+
+@[inline] def un32 (fn : Nat) (sgn : Bool) (v : UInt32) : UInt64 :=
+  match fn, sgn with
+  | 0, false => i32 (bitCount_U32 v)
+  | 0, true => i32 (bitCount_I32 v.toInt32)
+  | 1, false => i32 (findLSB_U32 v)
+  | 1, true => i32 (findLSB_I32 v.toInt32)
+  | 2, false => i32 (findMSB_U32 v)
+  | 2, true => i32 (findMSB_I32 v.toInt32)
+  | _, false => (bitfieldReverse_U32 v).toUInt64
+  | _, true => (bitfieldReverse_I32 v.toInt32).toUInt32.toUInt64
+
+partial def blockHash (fn : Nat) (sgn : Bool) (v stop : UInt64) (h : UInt64) (nt : UInt64) : UInt64 × UInt64 :=
+  if v == stop then (h, nt) else
+  let r := un32 fn sgn v.toUInt32
+  blockHash fn sgn (v + 1) stop (fold (fold h r) 0) (if !(r == v) && !(r == 0) then nt + 1 else nt)
+
+@[inline] def un32Spec (fn : Nat) (sgn : Bool) (v : UInt32) : UInt64 :=
+  match fn with
+  | 0 => i32 (Spec.bitCount 32 v.toUInt64)
+  | 1 => i32 (Spec.findLSB 32 v.toUInt64)
+  | 2 => i32 (Spec.findMSB sgn 32 v.toUInt64)
+  | _ => Spec.reverse 32 v.toUInt64
+
+/-- as blockHash, and additionally counts the points of the block where model ≠ spec -/
+partial def blockHashSpec (fn : Nat) (sgn : Bool) (v stop : UInt64) (h nt bad : UInt64) : UInt64 × UInt64 × UInt64 :=
+  if v == stop then (h, nt, bad) else
+  let r := un32 fn sgn v.toUInt32
+  blockHashSpec fn sgn (v + 1) stop (fold (fold h r) 0) (if !(r == v) && !(r == 0) then nt + 1 else nt)
+    (if r == un32Spec fn sgn v.toUInt32 then bad else bad + 1)
+
+def sweepUn32 (fnName : String) (sgn : Bool) (lo hi : Nat) (withSpec : Bool) : IO Unit := do
+  let fn := match fnName with | "bitCount" => 0 | "findLSB" => 1 | "findMSB" => 2 | _ => 3
+  let mut nontriv : UInt64 := 0
+  let mut msd : UInt64 := 0
+  for blk in [lo:hi] do
+    let start := (UInt64.ofNat blk) <<< 20
+    if withSpec then
+      let (h, nt, bad) := blockHashSpec fn sgn start (start + 0x100000) 0 0 0
+      nontriv := nontriv + nt; msd := msd + bad
+      IO.println s!"BLOCK {blk} {h}"
+    else
+      let (h, nt) := blockHash fn sgn start (start + 0x100000) 0 0
+      nontriv := nontriv + nt
+      IO.println s!"BLOCK {blk} {h}"
+  IO.println s!"SWEEP un32 evals={(hi - lo) * 1048576} modelspecdiff={msd} nontrivial={nontriv} spec={withSpec}"
+
+def main (args : List String) : IO UInt32 := do
+  match args with
+  | ["lines", path] => runLines path
+  | ["sweep", "ext16", s] => sweepExt16 (s == "i"); return 0
+  | ["sweep", "ins8", s] => sweepIns8 (s == "i"); return 0
+  | ["sweep", "un32", fn, s] => sweepUn32 fn (s == "i") 0 4096 false; return 0
+  | ["sweep", "un32", fn, s, lo, hi] => sweepUn32 fn (s == "i") lo.toNat! hi.toNat! false; return 0
+  | ["sweep", "un32", fn, s, lo, hi, "spec"] => sweepUn32 fn (s == "i") lo.toNat! hi.toNat! true; return 0
+  | _ => IO.eprintln "usage: drv_c05 lines <file> | sweep ext16|ins8 <u|i> | sweep un32 <fn> <u|i> [lo hi [spec]]"; return 2
